@@ -410,7 +410,101 @@ fn templates(c: char) -> [Vec<char>; 12] {
     ]
 }
 
+/// The deep pass: this binary was compiled without optimisation. A few long runs - a dozen
+/// symbols repeated 4 000 times, and ZWNJ / ZWJ between such runs of transparent marks - go
+/// through the main operations on threads whose stack is 128 KiB. Recursion whose depth follows the input overflows such a
+/// stack after a few thousand frames (the process dies: "engine died" = violation of C01);
+/// iteration does not care.
+pub fn run_deep(_env: &Env, run: &Run) -> (Stats, Coverage) {
+    const K: usize = 4000;
+    const STACK: usize = 128 * 1024;
+    let sigma: Vec<char> = [0x61u32, 0x20, 0xE9, 0x301, 0x5BF, 0x64B, 0x628, 0x5D0, 0x94D, 0x30FB, 0x660, 0xFF21]
+        .iter()
+        .filter_map(|c| char::from_u32(*c))
+        .collect();
+    let mut strs: Vec<String> = Vec::new();
+    for &a in &sigma {
+        let runs: String = std::iter::repeat(a).take(K).collect();
+        strs.push(runs.clone());
+        strs.push(format!("a{}", runs));
+        strs.push(format!("{}\u{628}", runs));
+    }
+    // joiner sandwiches: D T^k ZWNJ T^k D, virama T^k ZWJ
+    for t in ['\u{64b}', '\u{5bf}'] {
+        let tr: String = std::iter::repeat(t).take(K).collect();
+        strs.push(format!("\u{628}{}\u{200c}{}\u{628}", tr, tr));
+        strs.push(format!("\u{628}{}\u{200c}\u{628}", tr));
+        strs.push(format!("\u{628}\u{200c}{}\u{628}", tr));
+        strs.push(format!("\u{94d}{}\u{200d}", tr));
+    }
+    let strs = std::sync::Arc::new(strs);
+    let nthreads = 16usize;
+    let handles: Vec<_> = (0..nthreads)
+        .map(|t| {
+            let strs = strs.clone();
+            std::thread::Builder::new()
+                .stack_size(STACK)
+                .spawn(move || {
+                    let mut st = Stats::default();
+                    for (i, s) in strs.iter().enumerate() {
+                        if i % nthreads != t {
+                            continue;
+                        }
+                        st.states += 1;
+                        st.transitions += 1;
+                        let chars: Vec<char> = s.chars().collect();
+                        // scans are slow without optimisation: this is not a hang
+                        watch::with_allowance(300, || {
+                            core_ops(s, &chars, &mut st);
+                            for (p, rfs) in [(Prof::Ucm, RuleFn::ALL), (Prof::Nick, RuleFn::ALL)] {
+                                for rf in rfs {
+                                    let r = rule(p, rf, s);
+                                    st.evaluations += 1;
+                                    if matches!(r, Out::Panic(_)) {
+                                        bad(rf.name(), s, p.name(), &r, &mut st);
+                                    }
+                                }
+                            }
+                            if let Some(j) = chars.iter().position(|c| *c == '\u{200c}' || *c == '\u{200d}') {
+                                for r in CtxRule::ALL {
+                                    let o = ctx_rule(r, s, j);
+                                    st.evaluations += 1;
+                                    if matches!(o, CtxOut::Panic(_)) {
+                                        let name = r.name().to_string();
+                                        st.violation("panic", || Case::new("ctx").s(s).n(j as u64).x(json!(name)), "Ok / NotApplicable / Undefined".into(), format!("{:?}", o));
+                                    }
+                                }
+                            }
+                        });
+                        st.count("out:returned");
+                    }
+                    st
+                })
+                .expect("spawn")
+        })
+        .collect();
+    let mut st = Stats::default();
+    for h in handles {
+        match h.join() {
+            Ok(s) => st.merge(s),
+            Err(_) => st.violation("panic", || Case::new("deep"), "the worker thread finishes".into(), "a worker thread of the deep pass panicked outside catch_unwind".into()),
+        }
+    }
+    let cov = Coverage {
+        rule: format!("deep pass: unoptimised build, {} KiB stacks; each of 12 symbols repeated {} times (alone, after 'a', before U+0628) and ZWNJ / ZWJ between runs of {} transparent marks; enforce + compare of every profile, allows of both classes, the rule functions of two profiles, every context rule at the joiner", STACK / 1024, K, K),
+        alphabet: json!(sigma.iter().map(|c| format!("U+{:04X}", *c as u32)).collect::<Vec<_>>()),
+        bound_completed: format!("{} labels", strs.len()),
+        exhaustive: false,
+        assumptions: vec![],
+        extra: json!({"tier": run.tier.name()}),
+    };
+    (st, cov)
+}
+
 pub fn run(_env: &Env, run: &Run) -> (Stats, Coverage) {
+    if deep() {
+        return run_deep(_env, run);
+    }
     // (a) every scalar value in 12 templates + next to each of its 16 other-plane aliases through every operation
     let mut st = cpsweep(|c, st| {
         for t in templates(c) {
